@@ -149,6 +149,9 @@ var (
 	pools       []*Pool
 	// PoolGets / PoolPuts / PoolReuses count adversarial pool traffic (evidence).
 	PoolGets, PoolPuts, PoolReuses int64
+	// PoolDoublePuts counts releases of a byte buffer whose backing array is already in the
+	// pool: the pool would hand the same memory to two owners.
+	PoolDoublePuts int64
 )
 
 // SetAdversarial switches the adversarial mode for use outside an exploration.
@@ -159,6 +162,7 @@ func SetAdversarial(on bool) {
 
 //go:norace
 func resetPools() {
+	PoolDoublePuts = 0
 	for _, p := range pools {
 		for i := 0; i < p.n; i++ {
 			p.stack[i] = nil
@@ -193,6 +197,15 @@ func (p *Pool) pop() *poolItem {
 //go:norace
 func (p *Pool) push(it *poolItem) {
 	PoolPuts++
+	if b, ok := it.v.([]byte); ok && cap(b) > 0 {
+		first := &b[:1][0]
+		for i := 0; i < p.n; i++ {
+			if o, ok := p.stack[i].v.([]byte); ok && cap(o) > 0 && &o[:1][0] == first {
+				PoolDoublePuts++
+				break
+			}
+		}
+	}
 	if p.n < poolCap {
 		p.stack[p.n] = it
 		p.n++
